@@ -26,7 +26,9 @@ V4Cols == AllStyleCols \ {"Underline", "Strikeout", "ScaleX", "ScaleY", "Spacing
 Line1(rs) == <<rs>>
 R(a, fx) == [a |-> a, fx |-> fx]
 Texts == {<<<<R(1, 0)>>>>, <<<<R(1, 1)>>>>, <<<<R(1, 0), R(2, 1)>>>>, <<<<R(1, 1), R(2, 2)>>>>, <<<<R(1, 0)>>, <<R(2, 0)>>>>, <<<<R(3, 0)>>>>,
-          <<<<R(1, 0)>>, <<R(2, 1)>>, <<R(3, 0)>>>>}
+          <<<<R(1, 0)>>, <<R(2, 1)>>, <<R(3, 0)>>>>,
+          \* two override blocks in a row: the first one is a run of its own without text (atom 0)
+          <<<<R(0, 2), R(1, 1)>>>>, <<<<R(1, 0), R(0, 1), R(2, 2)>>>>}
 Ev(s, e, cols, lines) == [s |-> s, e |-> e, cols |-> cols, lines |-> lines]
 EmptyF == [x \in {} |-> 0]
 Base(plus) == [plus |-> plus, info |-> EmptyF, notes |-> <<>>, styles |-> <<>>, events |-> <<>>]
